@@ -20,7 +20,11 @@
         string literal with the escapes backslash-t, -n, -quote, -backslash and printable ASCII, a call
         [f a b ...] whose arguments are such operands, bare function names or
         parenthesised calls [(f a b)].
-    Model only: executable definitions, no proofs. *)
+    [exec_template] answers [None] for a Go execution error, for a function
+    name that is not defined (Go's parse-time check) and for what is left
+    unmodelled (printf beyond %s / %Ns / %-Ns over strings, widths and lengths
+    above [max_small], printing other than strings and integers).
+    Model only: executable definitions, no proofs (Proofs/Template*.v). *)
 From HP Require Import Base.Bytes Base.Utf8 Base.Num Model.Elements Model.Dates Model.Reporters.
 Open Scope N_scope.
 
@@ -215,9 +219,9 @@ Fixpoint lex_string (s : bytes) : option (bytes * bytes) :=
   end.
 
 Definition dec_val (ds : bytes) : Z := Z.of_N (fold_left (fun a c => a * 10 + (c - 48)) ds 0).
-(** a leading zero would make the literal octal in Go *)
+(** a leading zero would make the literal octal in Go; from 2^63 on it is no [int] *)
 Definition dec_ok (ds : bytes) : bool :=
-  match ds with c :: _ :: _ => negb (c =? 48) | _ => true end.
+  (match ds with c :: _ :: _ => negb (c =? 48) | _ => true end) && (dec_val ds <=? 9223372036854775807)%Z.
 
 Definition cons_tok (t : token) (o : option (list token * bool * bytes)) : option (list token * bool * bytes) :=
   match o with Some (ts, tr, rest) => Some (t :: ts, tr, rest) | None => None end.
@@ -495,9 +499,15 @@ Section Eval.
     | _ => None
     end.
 
+  (** widths and lengths above this are left unmodelled ([None]); they are unary
+      numbers ([nat]) in [pad_left] / [truncate_middle], so the executable model
+      must not be handed an arbitrary literal (Go: an error from 1e6 for a width,
+      from 2^63 for an [int]) *)
+  Definition max_small : N := 65535.
+
   (** [fmt.Sprintf] for literal text and the verbs %s, %Ns, %-Ns with string
-      operands (N without a leading zero); too few or too many operands, any
-      other verb or operand type: [None] *)
+      operands (N without a leading zero, at most [max_small]); too few or too
+      many operands, any other verb or operand type: [None] *)
   Inductive pstate := PLit | PSpec (lj seen : bool) (w : N).
 
   Definition pad (lj seen : bool) (w : N) (s : bytes) : bytes :=
@@ -518,7 +528,9 @@ Section Eval.
               | _ => None
               end
             else if (c =? 45) && negb lj && negb seen then printf_go r (PSpec true false 0) args
-            else if is_digit c && (seen || negb (c =? 48)) then printf_go r (PSpec lj true (w * 10 + (c - 48))) args
+            else if is_digit c && (seen || negb (c =? 48)) then
+              let w' := w * 10 + (c - 48) in
+              if w' <=? max_small then printf_go r (PSpec lj true w') args else None
             else None
         end
     end.
@@ -568,9 +580,26 @@ Section Eval.
     Definition exec_list (vars : list (bytes * tvalue)) (dot : tvalue) (ns : list tnode) : option bytes :=
       omap_concat (exec_node vars dot) ns.
 
-    (** [Execute]: dot and [$] are the data *)
+    (** [term()] at parse time: every function named in the template is defined,
+        also in branches that are not executed (the function map is given to
+        the template before [Parse]; here it arrives with the evaluator) *)
+    Fixpoint expr_funcs_ok (e : texpr) : bool :=
+      match e with
+      | ECall f args => (match fe f with Some _ => true | None => false end) && forallb expr_funcs_ok args
+      | _ => true
+      end.
+
+    Fixpoint node_funcs_ok (n : tnode) : bool :=
+      match n with
+      | TText _ => true
+      | TAction e => expr_funcs_ok e
+      | TIf e body => expr_funcs_ok e && forallb node_funcs_ok body
+      | TRange _ e body => expr_funcs_ok e && forallb node_funcs_ok body
+      end.
+
+    (** [Parse]'s function check, then [Execute]: dot and [$] are the data *)
     Definition exec_template (ns : list tnode) (data : tvalue) : option bytes :=
-      exec_list [([], data)] data ns.
+      if forallb node_funcs_ok ns then exec_list [([], data)] data ns else None.
   End Exec.
 
   (** * The binding to the model's data *)
@@ -604,7 +633,9 @@ Section Eval.
       Some (fun args => match args with [VNum x] => Some (VStr (format_value NM (rc_color c) x)) | _ => None end)
     else if beq name (b "shorten") then
       Some (fun args => match args with
-                        | [VStr s; VInt z] => if (0 <=? z)%Z then Some (VStr (shorten (rc_shorten c) s (Z.to_nat z))) else None
+                        | [VStr s; VInt z] =>
+                            if ((0 <=? z) && (z <=? Z.of_N max_small))%Z
+                            then Some (VStr (shorten (rc_shorten c) s (Z.to_nat z))) else None
                         | _ => None
                         end)
     else if beq name (b "printf") then Some printf_fn
@@ -613,6 +644,7 @@ End Eval.
 
 Arguments VStr {NM}. Arguments VNum {NM}. Arguments VInt {NM}. Arguments VTime {NM}.
 Arguments VList {NM}. Arguments VPtr {NM}. Arguments VRec {NM}.
+Arguments expr_funcs_ok {NM}. Arguments node_funcs_ok {NM}.
 Arguments eval {NM}. Arguments exec_node {NM}. Arguments exec_list {NM}. Arguments exec_template {NM}.
 Arguments get_field {NM}. Arguments get_chain {NM}. Arguments truth {NM}. Arguments range_items {NM}.
 Arguments print_value {NM}. Arguments printf_go {NM}. Arguments printf_fn {NM}. Arguments bind_var {NM}.
